@@ -172,16 +172,42 @@ def capv(v):
     return int(v)
 
 
+def _tolerant(fn, skip=0):
+    """calls a hook with the arguments it declares: extra trailing positional arguments and unknown keyword
+    arguments of the wrapped method (an internal signature that grew) are not the hook's business"""
+    import inspect
+    try:
+        ps = list(inspect.signature(fn).parameters.values())
+    except (TypeError, ValueError):
+        return fn
+    if any(p.kind == p.VAR_POSITIONAL for p in ps):
+        npos = None
+    else:
+        npos = sum(1 for p in ps if p.kind in (p.POSITIONAL_ONLY, p.POSITIONAL_OR_KEYWORD))
+    varkw = any(p.kind == p.VAR_KEYWORD for p in ps)
+    names = {p.name for p in ps}
+
+    def call(*a, **kw):
+        if npos is not None:
+            a = a[:npos]
+        if not varkw:
+            kw = {k: v for k, v in kw.items() if k in names}
+        return fn(*a, **kw)
+    return call
+
+
 def wrap(obj, name, pre=None, post=None):
     """instance-level delegating wrapper around obj.<name> (the real bound method)"""
     real = getattr(obj, name)
+    pre_c = _tolerant(pre) if pre is not None else None
+    post_c = _tolerant(post) if post is not None else None
 
     def w(*a, **kw):
-        if pre is not None:
-            pre(*a, **kw)
+        if pre_c is not None:
+            pre_c(*a, **kw)
         r = real(*a, **kw)
-        if post is not None:
-            post(r, *a, **kw)
+        if post_c is not None:
+            post_c(r, *a, **kw)
         return r
     w.__wrapped__ = real
     object.__setattr__(obj, name, w)
